@@ -195,7 +195,13 @@ def _call(args):
             return fn(unit)
     except Exception as e:
         tb = traceback.extract_tb(e.__traceback__)
-        if tb and os.path.abspath(tb[-1].filename).startswith(os.path.abspath(REPO) + os.sep):
+        repo_dir = os.path.abspath(REPO) + os.sep
+        here = os.path.abspath(os.path.dirname(__file__)) + os.sep
+        in_repo = [i for i, f in enumerate(tb) if os.path.abspath(f.filename).startswith(repo_dir)]
+        # raised by the implementation, or by a library the implementation called (re, json, ...), and not by
+        # harness code the implementation called back into (recognizers, actions, filters)
+        if in_repo and not any(os.path.abspath(f.filename).startswith(here) for f in tb[in_repo[-1]:]):
+            tb = tb[:in_repo[-1] + 1]
             # the implementation itself raised where the harness expected it to work: that is a
             # finding about the code, not a failure of the check's machinery
             return {"evaluations": 1, "violations": [{
